@@ -118,6 +118,7 @@ def classify(res, unit):
                 o = unit.locate(s["byte_start"])
                 o["span_label"] = s.get("label")
                 o["gen_line"] = s["line_start"]
+                o["text"] = (s.get("text") or [{}])[0].get("text", "").strip()
                 o_sec.append(o)
             else:
                 o_sec.append({"kind": "external", "file": s["file_name"], "span_label": s.get("label"),
@@ -168,7 +169,7 @@ def classify(res, unit):
                     rec["label"] = "requires:%s::%s" % (o["fn"], o.get("label") or "?")
                     rec["props"] = o.get("props", [])
                 elif o.get("kind") in ("external", "template") and o.get("span_label") and "precondition" in o["span_label"]:
-                    rec["label"] = "requires:" + (o.get("text") or "vstd")[:80]
+                    rec["label"] = "requires:" + re.sub(r"\s+", " ", (o.get("text") or "vstd"))[:80]
             if rec["label"] is None:
                 rec["label"] = kind
             failures.append(rec)
